@@ -29,8 +29,8 @@ CHECKS["C06"] = dict(
          "otherwise; countries without algorithm always return True. Helper contracts (numerify, luhn, get_index, "
          "clean, BBAN.bank) are used at call sites and verified by their own tasks.",
     design_ref="DESIGN.md C06",
-    note="Trusted: pyvc encoding, z3/cvc5, transcription of the national rules (A10). NO accounts whose digits 5-6 "
-         "are 00 are an unspecified band. BBAN.bank contract (None or an entry of the BBAN's country) assumed here, "
+    note="Trusted: pyvc encoding, z3/cvc5, transcription of the national rules (A10). For NO accounts whose digits 5-6 "
+         "are 00 the rule is the library's documented reading (bank identifier left out), not independently confirmed. BBAN.bank contract (None or an entry of the BBAN's country) assumed here, "
          "proved under C12. The IBAN-level threading of validate_bban is covered by C05's tasks.",
     technique="contract-based deductive verification: VCs from the live ASTs (pyvc), z3/cvc5; native replay",
 )
@@ -181,8 +181,9 @@ CHECKS["C15"] = dict(
     text="The functional contracts of the same call trees are proved with the scratch state of the shared algorithm "
          "objects havocked at entry and functools.lru_cache modelled as 'fresh result or result of an earlier call with "
          "an equal key' (history-dependent caches are refuted and replayed with the earlier call as prelude); write "
-         "frames show no call writes registries, arguments or earlier objects; a bounded native run compares 190+ calls "
-         "under three histories in fresh processes and the process-wide state before/after.",
+         "frames show no call writes registries, arguments or earlier objects; a bounded native run compares ~700 calls - "
+         "each alone on pristine state (forked per call) - with their outcomes under three histories in fresh processes, "
+         "and the registries / algorithm objects before and after.",
     design_ref="DESIGN.md C15",
     note="History carriers other than instance scratch fields, threading.local storage and lru_cache are only caught "
          "as frame violations (writes to shared containers) or by the bounded native history run.",
